@@ -337,6 +337,10 @@ def gen_config(rng, prop, tier):
     purge = rng.chance(0.3) and prop != 'C06'
     fn = rng.weighted([(3, 'f1'), (4, 'f2'), (2, 'f3'), (2, 'f4'), (2, 'f5'), (2, 'f6'), (1, 'f7'), (1, 'f8'), (1, 'f9'), (1, 'b1'),
                        (1, 'm2'), (1, 'c2'), (1, 'p2'), (1, 'w2')])
+    huge = prop == 'C06' and algo in ('lru', 'mru') and rng.chance(0.012)
+    if huge:
+        # a cache of a thousand entries and more than ten thousand recorded uses between two overflows
+        maxsize, maxsize_pos, purge, fn, wide = rng.choice([1000, 1200]), False, False, 'f1', False
     if prop in ('C01', 'C05', 'C15') and not wide and rng.chance(0.06):
         fn = 'r1'        # a memoized recursive function (re-entrant calls)
     if wide:
@@ -351,6 +355,8 @@ def gen_config(rng, prop, tier):
     if prop in ('C07', 'C02'):
         labels = [l for l in labels if l not in (None, 'null')] + ['dict']
     label = rng.choice(labels)
+    if huge:
+        label = None          # in memory only: a thousand entries are read back after every step
     if fn == 'b1' and label in ('file-src', 'dir-src'):
         fn = 'f3'        # Cnt results have no importable source form: not lossless in source-text archives
     direct = label is not None and label != 'null' and rng.chance(0.15) and prop not in ('C07',)
@@ -389,7 +395,7 @@ def gen_config(rng, prop, tier):
     cfg = {'module': module, 'algo': algo, 'maxsize': maxsize, 'maxsize_pos': maxsize_pos,
            'purge': purge, 'keymap': km, 'fn': fn,
            'backend': backend, 'direct': direct,
-           'ignore': None, 'tol': None, 'deep': False, 'wide': wide,
+           'ignore': None, 'tol': None, 'deep': False, 'wide': wide, 'huge': huge,
            'bigres': label in ('dir-z', 'dir-fast', 'dir-mmap', 'dir-pkl', 'file-pkl', 'sql-file') and not wide
            and rng.chance(0.12)}
     if prop == 'C16' and module == 'safe' and rng.chance(0.25):
@@ -695,6 +701,16 @@ def generate(rng, prop, tier):
         op = spell(rng, fn, rng.choice(hot))
         op['op'] = 'sibling_call'
         ops.insert(0, op)
+    if prop in ('C15', 'C06', 'C05', 'C20') and fn not in ('r1',) and rng.chance(0.06):
+        # a long run of calls on recently used arguments, executed without reading the cache back in between
+        # (hundreds of recorded uses since the last eviction: queue-length thresholds, periodic housekeeping)
+        cs = [spell(rng, fn, c) for c in (recent[-3:] or hot[:2])]
+        ops.insert(rng.randint(len(ops) // 2, len(ops)), {'op': 'burst', 'n': rng.choice([120, 300, 1100]), 'calls': cs})
+    if cfg.get('huge'):
+        ms = cfg['maxsize']
+        ops = [{'op': 'call', 'a': [i], 'kw': []} for i in range(ms)]
+        ops.append({'op': 'burst', 'n': 10 * ms + rng.randint(50, 600), 'calls': [{'op': 'call', 'a': [i], 'kw': []} for i in (0, 2, 5)]})
+        ops.extend({'op': 'call', 'a': [ms + i], 'kw': []} for i in range(4))
     if prop == 'C20':
         pos = rng.randint(0, len(ops))
         ops.insert(pos, {'op': 'clone'})
@@ -1182,6 +1198,46 @@ def run_world(case, prop, root, name, skip, fs, clock, probes, faults, log):
             trace.append((step, after, outcome[0], outcome[1] if outcome[0] == 'ok' else type(outcome[1]).__name__))
             before = after
             continue
+        if kind == 'burst':
+            cache = f.__cache__()
+            todo = []
+            for cop in op['calls']:
+                a_, k_ = _decode_call(cop)
+                try:
+                    kk = f.key(*a_, **k_)
+                    if kk in cache and w.eff_algo != 'no':
+                        todo.append((a_, k_, kk))
+                except Exception:
+                    pass
+            if todo:
+                bump(faults, 'burst-of-hits')
+                for i in range(op['n']):
+                    a_, k_, kk = todo[i % len(todo)]
+                    n0 = len(w.evals)
+                    val = f(*a_, **k_)
+                    if len(w.evals) != n0:
+                        raise Mismatch('needless-evaluation', 'call %d of a run of calls on resident keys evaluated the '
+                                       'function for key %s' % (i, show(kk)))
+                    if cfg.get('tol') is None and cfg.get('ignore') is None and val != w.rfn(*a_, **k_):
+                        raise Mismatch('wrong-result', 'call %d of a run of calls on resident keys returned %r' % (i, val))
+                    orc.stats[0] += 1
+                    orc.stamp += 1
+                    orc.last_use[kk] = orc.stamp
+                    orc.count[kk] = orc.count.get(kk, 0) + 1
+                bump(probes, 'burst-calls', op['n'])
+            after = w.observe()
+            if todo:
+                if after['mem'] != before['mem']:
+                    raise Mismatch('eviction-policy' if prop == 'C06' else 'capacity', 'a run of %d hits changed the resident set '
+                                   'from %d to %d entries' % (op['n'], len(before['mem']), len(after['mem'])))
+                if prop == 'C15':
+                    exp = (orc.stats[0], orc.stats[1], orc.stats[2], w.eff_maxsize, len(after['mem']))
+                    if tuple(after['info']) != exp:
+                        raise Mismatch('stats', 'after a run of %d hits info() is %r, the history gives %r'
+                                       % (op['n'], tuple(after['info']), exp))
+            before = after
+            trace.append((step, after, 'burst', None))
+            continue
         if kind == 'codeco_call':
             # the same decorator OBJECT applied a second time (memo = lru_cache(...); f = memo(fn); h = memo(fn)):
             # the two functions share the cache by construction, but what h does is not a call of f, so
@@ -1492,6 +1548,11 @@ def compare_twins(case, prop, ta, tb, skip):
 
 # --------------------------------------------------------------------------
 # shrinking hints, signatures, evidence text
+
+def shrink_budget(case):
+    """re-running a thousand-step case costs seconds: minimise those only a little"""
+    return 12 if len(case.get('ops', [])) > 400 or case['cfg'].get('huge') else 250
+
 
 def simplify(case):
     cfg = case['cfg']
